@@ -115,13 +115,41 @@ def overlay_family(rnd, first_id, n):
 
     from dissect.cstruct import cstruct
 
+    from dissect.cstruct.types import BaseType
+
+    class My(BaseType):
+        """A user type (cstruct.add_custom_type): two bytes, little endian - the source generator knows nothing about it."""
+
+        @classmethod
+        def _read(cls, stream, context=None):
+            data = stream.read(2)
+            if len(data) != 2:
+                raise EOFError
+            return int.from_bytes(data, "little")
+
+        @classmethod
+        def _write(cls, stream, data):
+            return stream.write(int(data).to_bytes(2, "little"))
+
     out = []
     names = ["uint8", "uint16", "uint32", "int24", "char", "uint64"]
     for _ in range(n):
         mode = codec.gen_mode(rnd)
         base = [rnd.choice(names) for _ in range(rnd.randrange(1, 4))]
+        if rnd.random() < 0.3:
+            base.insert(rnd.randrange(len(base) + 1), rnd.choice(["my", "my[2]", "my[1][2]"]))        # custom type members: fall back, do not skip
+        if rnd.random() < 0.3:
+            base.insert(rnd.randrange(len(base) + 1), "DYN")                                          # a dynamically sized member before the added fields
         adds = [(rnd.choice(names), rnd.choice([None, 0, 1, 2, 3, 5, 8, 12])) for _ in range(rnd.randrange(1, 5))]
-        text = "struct OV { " + " ".join(f"{ty} b{i};" for i, ty in enumerate(base)) + " };"
+
+        def decl(i, ty):
+            if ty == "DYN":
+                return f"uint8 n{i}; char d{i}[n{i} & 3];"
+            if "[" in ty:
+                return f"{ty[:ty.index('[')]} b{i}{ty[ty.index('['):]};"
+            return f"{ty} b{i};"
+
+        text = "struct OV { " + " ".join(decl(i, ty) for i, ty in enumerate(base)) + " };"
         desc = text + " + " + ", ".join(f"{ty} @ {off}" for ty, off in adds)
         data = bytes(range(1, 41))
         start = codec.start_for(rnd, {"mode": mode})
@@ -129,6 +157,7 @@ def overlay_family(rnd, first_id, n):
         obs = {}
         for key, compiled in (("", True), ("2", False)):
             cs = codec.new_cs(mode)
+            cs.add_custom_type("my", My, 2, 2)
             cs.load(text, compiled=compiled, align=mode["align"])
             T = cs.OV
             try:
